@@ -77,6 +77,12 @@ _lock = threading.Lock()
 def run_pipeline(chk, mode, module, cfg, jobs, mcs, chunk, key_of, mc_workers=3, pool=6):
     """jobs: [(tag, driver args)], mcs: [cfg of SharingMC].  Drivers first (fast), then MC and trace validation
     share a pool of `pool` TLC processes."""
+    # self-test knobs (mutation runs): restrict the driver jobs / leave the model-checking part out
+    only = [x for x in os.environ.get("VERIF_ONLY_JOBS", "").split(",") if x]
+    if only:
+        jobs = [j for j in jobs if j[0] in only]
+    if os.environ.get("VERIF_SKIP_MC") == "1":
+        mcs = []
     binary = vlib.build("sharing")
     stats = {"lines": 0, "by_action": {}, "policies": 0, "by_family": {}}
     traces = {}
@@ -196,7 +202,7 @@ def run(chk):
         "the distribution of the library's randomness is not examined (Shamir/Tassa draw a non-zero leading coefficient, a 1/q deviation)",
         "certificates (reconstruction vector / privacy witness) are produced by the harness's own elimination and verified by TLC",
         "Tassa: regularity of the quorum's square Birkhoff matrix beyond the top threshold and non-vanishing leading coefficients are 1/q guards",
-        "CNF and ISN identifiers are confined to 1..64 (the library orders clauses through 64-bit sets)",
+        "ISN (and the brute-force maximal-unqualified-set iterator) are exercised with identifiers 1..64 only: the library keys pieces by 64-bit sets, a documented representation limit",
     ]
     return chk.finish()
 
